@@ -94,12 +94,14 @@ func cgProgram(r *rand.Rand) []cgBlock {
 		return sb.String()
 	}
 	var subs []cgBlock
+	heads := map[string]string{}
 	for _, u := range users {
 		head := ""
 		if r.Intn(6) == 0 {
 			sc := []string{"recv", "deliver", "fetch", "recv,deliver", "miss,pass", "hit,error,log"}[r.Intn(6)]
 			head = "//@scope: " + sc + "\n"
 		}
+		heads[u] = head
 		subs = append(subs, cgBlock{Name: "sub:" + u, IsSub: true, Text: head + "sub " + u + " {\n" + body(r.Intn(4)) + "}\n"})
 	}
 	for _, f := range funcs {
@@ -108,6 +110,18 @@ func cgProgram(r *rand.Rand) []cgBlock {
 			ret = "return " + funcs[r.Intn(len(funcs))] + "();"
 		}
 		subs = append(subs, cgBlock{Name: "sub:" + f, IsSub: true, Text: "sub " + f + " STRING {\n" + body(r.Intn(2)) + "  " + ret + "\n}\n"})
+	}
+	// duplicate definitions: a user subroutine declared twice, as a plain subroutine again or as a
+	// functional one of the same name (nobody needs to call it)
+	if r.Intn(5) == 0 {
+		u := users[r.Intn(len(users))]
+		// the second definition has a neutral body: which of two DIFFERENT bodies is "the" definition
+		// depends on the order by nature, the diagnostics about the duplicate itself must not
+		if r.Intn(2) == 0 {
+			subs = append(subs, cgBlock{Name: "sub:" + u, IsSub: true, Text: heads[u] + "sub " + u + " STRING {\n  return \"dup\";\n}\n"})
+		} else {
+			subs = append(subs, cgBlock{Name: "sub:" + u, IsSub: true, Text: heads[u] + "sub " + u + " {\n  set req.http.S = \"s\";\n}\n"})
+		}
 	}
 	nf := 1 + r.Intn(4)
 	perm := r.Perm(len(cgFastly))
@@ -121,6 +135,11 @@ func cgProgram(r *rand.Rand) []cgBlock {
 			tail = "  return(deliver);\n"
 		}
 		subs = append(subs, cgBlock{Name: "sub:" + f.name, IsSub: true, Text: "sub " + f.name + " {\n#FASTLY " + f.macro + "\n" + body(1+r.Intn(3)) + tail + "}\n"})
+		// a Fastly subroutine may be declared twice (the bodies are concatenated): the second
+		// declaration calls helpers of its own
+		if r.Intn(5) == 0 {
+			subs = append(subs, cgBlock{Name: "sub:" + f.name, IsSub: true, Text: "sub " + f.name + " {\n" + body(1+r.Intn(3)) + tail + "}\n"})
+		}
 	}
 	r.Shuffle(len(subs), func(i, j int) { subs[i], subs[j] = subs[j], subs[i] })
 	// interleave
@@ -156,6 +175,17 @@ func cgMapped(blocks []cgBlock, ds []lintutil.Diag) []string {
 		where := "?"
 		if bi >= 0 {
 			where = fmt.Sprintf("%s+%d:%d", blocks[bi].Name, d.Line-starts[bi], d.Pos)
+			// a name that is declared more than once: which of the declarations carries a diagnostic
+			// about the name is a matter of location, which the property exempts
+			n := 0
+			for _, b := range blocks {
+				if b.Name == blocks[bi].Name {
+					n++
+				}
+			}
+			if n > 1 {
+				where = blocks[bi].Name + "(declared more than once)"
+			}
 		}
 		out = append(out, where+"|"+d.NoPos())
 	}
